@@ -194,7 +194,20 @@ func (st *State) binop(op token.Token, t, ty types.Type, x, y Value) Value {
 			}
 			return term.MkCmp(term.Ule, b, a)
 		}
+	case OpaqueFloat:
+		switch op {
+		case token.ADD, token.SUB, token.MUL, token.QUO:
+			return a
+		}
+		st.unsupported("comparison of an opaque float")
 	case Float:
+		if of, isO := y.(OpaqueFloat); isO {
+			switch op {
+			case token.ADD, token.SUB, token.MUL, token.QUO:
+				return of
+			}
+			st.unsupported("comparison of an opaque float")
+		}
 		b, ok := y.(Float)
 		if !ok {
 			st.unsupported("float binop with %T", y)
@@ -267,6 +280,8 @@ func (st *State) unop(instr *ssa.UnOp, x Value) Value {
 			return term.MkNeg(a)
 		case Float:
 			return Float{-a.V, a.Bits}
+		case OpaqueFloat:
+			return a
 		}
 	case token.XOR:
 		return term.MkBNot(asTerm(st, x))
@@ -365,7 +380,7 @@ func (st *State) conv(tdst, tsrc types.Type, x Value) Value {
 			switch v := x.(type) {
 			case *term.T:
 				if !v.IsConst() {
-					st.unsupported("symbolic int -> float conversion")
+					return OpaqueFloat{bits}
 				}
 				if isSigned(tsrc) {
 					f = float64(v.Signed())
@@ -374,6 +389,8 @@ func (st *State) conv(tdst, tsrc types.Type, x Value) Value {
 				}
 			case Float:
 				f = v.V
+			case OpaqueFloat:
+				return OpaqueFloat{bits}
 			default:
 				st.unsupported("conv %T to float", x)
 			}
